@@ -33,6 +33,7 @@ func checkC06(c *Ctx) {
 	c06PHash(c)
 	c06Clones(c)
 	c06MsgBytes(c)
+	c06MaxPayload(c)
 	c06Fragment(c)
 	c06Deliver(c)
 	c07MustDecrypt(c) // includes: Read pulls a new record only when no decrypted data is pending
@@ -468,6 +469,27 @@ func c06Suite(c *Ctx) {
 		if len(calls) == 1 {
 			a := argForms(f, calls[0])
 			c.Check(len(a) == 2 && a[1] == "hs.serverHello.vers", rule, fname(f), "mutualVersion is asked about the ServerHello's version", "", "mutualVersion("+strings.Join(a, ", ")+")", calls[0].Pos())
+			// the plain-TLS client goes on only with TLS 1.0 or later: with the mutual version anywhere in
+			// [0, 0x0300] — SSL 3.0 and the GMSSL number 0x0101, which mutualVersion both accepts — no successful
+			// return is reachable (decided on values: any comparison of that version with constants)
+			{
+				call := calls[0]
+				var ext *ssa.Extract
+				for _, u := range *call.Referrers() {
+					if e, ok := u.(*ssa.Extract); ok && e.Index == 0 {
+						ext = e
+					}
+				}
+				if ext != nil {
+					ci := newCondIndex(f, allParamNames(f))
+					spec, _ := defaultResultSpec(f)
+					reachable := true
+					ci.withInterval(ci.be.plain(ext, ext).String(), 0, 0x0300, func() {
+						reachable, _ = canReachSuccess(f.Blocks[0], nil, successExits(f, spec), deadEdges(f))
+					})
+					c.Check(!reachable, rule, fname(f), "versions below TLS 1.0 (SSL 3.0, GMSSL 0x0101) are refused by the plain-TLS client", "", "with the mutual version at or below 0x0300 the function can still succeed: a server that selects SSL 3.0 or the GMSSL version number 0x0101 is followed into a protocol this client path does not implement", call.Pos())
+				}
+			}
 		}
 	}
 }
@@ -987,5 +1009,32 @@ func c06MsgBytes(c *Ctx) {
 	}
 	if n < 2 {
 		c.Undecided(rule, "gmtls", "calls that write a byte-slice argument", fmt.Sprintf("only %d found", n), token.NoPos)
+	}
+}
+
+// c06MaxPayload: the dynamic record sizing never asks for more than maxPlaintext (2^14) bytes per record — every value
+// returned by maxPayloadSizeForWrite is proved <= 16384 by the bounds prover (the arithmetic progression is clamped).
+// A larger fragment is a record the peer must answer with record_overflow, so a large Write fails mid-stream.
+func c06MaxPayload(c *Ctx) {
+	rule := "K-C06-fragment"
+	f := c.Fn("gmtls", "(*Conn).maxPayloadSizeForWrite")
+	if f == nil {
+		c.Undecided(rule, "gmtls.(*Conn).maxPayloadSizeForWrite", "payload limit", "function not found (record sizing is done elsewhere)", token.NoPos)
+		return
+	}
+	lb := &LB{p: c.P, f: f, UsedContracts: map[string]bool{}}
+	n := 0
+	for _, b := range f.Blocks {
+		ret, ok := b.Instrs[len(b.Instrs)-1].(*ssa.Return)
+		if !ok || len(ret.Results) != 1 {
+			continue
+		}
+		n++
+		c.Evals++
+		ok2 := lb.prove([]cons{le(lb.linOf(ret.Results[0]), linConst(16384))}, b, nil, map[lvar]lin{}, 3)
+		c.Check(ok2, rule, fname(f), fmt.Sprintf("returned payload size #%d is at most maxPlaintext", n), "", "not provable that the returned maximum payload is <= 16384 (maxPlaintext): a record larger than 2^14 bytes can be cut from a large Write, which every conforming peer rejects with record_overflow", ret.Pos())
+	}
+	if n == 0 {
+		c.Undecided(rule, fname(f), "payload limit", "no return found", f.Pos())
 	}
 }
